@@ -24,14 +24,20 @@ let icall r = match word r with
   | "min" -> let a = num r in let b = num r in ILocalMin (a, b)
   | "max" -> let a = num r in let b = num r in ILocalMax (a, b)
   | "glob" -> IGlobal
+  | "save" -> ISave (zi r)
   | w -> failwith ("unknown_interpolation_request_" ^ w)
 let icalls r = let n = integer r in List.init n (fun _ -> icall r)
 let points r = let n = integer r in List.init n (fun _ -> let x = num r in let y = num r in (x, y))
-let out_domain = function
-  | Ok (a, b) -> put_w "OK"; put_f a; put_f b
+(* `domain`, the indices returned by the Locate requests, and the number of answers that differ from those of an object
+   that has served no request before (none: the model of a request does not depend on the earlier ones) *)
+let out_domain d locs = match d with
+  | Ok (a, b) ->
+      (match locs () with
+       | Ok l -> put_w "OK"; put_f a; put_f b; put_i (List.length l); List.iter (fun j -> put_i (int_of_z j)) l; put_i 0
+       | Exit -> put_w "EXIT" | OOB -> put_w "OOB" | Fuel -> put_w "FUEL")
   | Exit -> put_w "EXIT" | OOB -> put_w "OOB" | Fuel -> put_w "FUEL"
 let out_domain2 = function
-  | Ok ((a, b), (c, d)) -> put_w "OK"; put_f a; put_f b; put_f c; put_f d
+  | Ok ((a, b), (c, d)) -> put_w "OK"; put_f a; put_f b; put_f c; put_f d; put_i 0
   | Exit -> put_w "EXIT" | OOB -> put_w "OOB" | Fuel -> put_w "FUEL"
 let fcalls r = let n = integer r in List.init n (fun _ -> match word r with
   | "f" -> FFact (zi r)
@@ -126,9 +132,9 @@ let handler r =
   | "interp2d_table" -> out (guard_interpolation_2d_table fops (table r))
   | "closest" -> let l = list r in let t = num r in out (closest_location fops l t)
   | "icalls" -> let xs = list r in let nf = zi r in let xd = num r in let fd = num r in let cs = icalls r in
-      out_domain (interp_session fops xs nf xd fd cs)
+      out_domain (interp_session fops xs nf xd fd cs) (fun () -> session_locs fops xs xd cs)
   | "icalls_t" -> let tb = table r in let xd = num r in let fd = num r in let cs = icalls r in
-      out_domain (interp_table_session fops tb xd fd cs)
+      out_domain (interp_table_session fops tb xd fd cs) (fun () -> table_session_locs fops tb xd cs)
   | "i2calls" -> let xs = list r in let ys = list r in let l = zl r in let xd = num r in let yd = num r in let _ = num r in
       let pts = points r in out_domain2 (interp2d_session fops xs ys l xd yd pts)
   | "i2calls_t" -> let tb = table r in let xd = num r in let yd = num r in let _ = num r in
